@@ -173,6 +173,7 @@ type childResult struct {
 }
 
 func runChild(self string, sc scenario, seed int64, g, iters int, dir string, budget time.Duration) childResult {
+	softMs := int(budget/time.Millisecond) / 6
 	t0 := time.Now()
 	res := childResult{Scenario: sc.Name, G: g, Iters: iters, Seed: seed}
 	logp := filepath.Join(dir, "race-"+sc.Name)
@@ -182,7 +183,7 @@ func runChild(self string, sc scenario, seed int64, g, iters int, dir string, bu
 	}
 	cmd := exec.Command(self)
 	cmd.Env = append(os.Environ(),
-		"C11_CHILD="+sc.Name, fmt.Sprintf("C11_SEED=%d", seed), fmt.Sprintf("C11_G=%d", g), fmt.Sprintf("C11_ITERS=%d", iters),
+		"C11_CHILD="+sc.Name, fmt.Sprintf("C11_SEED=%d", seed), fmt.Sprintf("C11_G=%d", g), fmt.Sprintf("C11_ITERS=%d", iters), fmt.Sprintf("C11_SOFT_MS=%d", softMs),
 		"GORACE=halt_on_error=0 exitcode=0 history_size=3 atexit_sleep_ms=0 log_path="+logp)
 	out := &strings.Builder{}
 	cmd.Stdout, cmd.Stderr = out, out
@@ -242,7 +243,11 @@ func childMain(name string) {
 	for _, sc := range scenarios {
 		if sc.Name == name {
 			// library code logs (timeoutAlarm, WARN lines) are not interesting here
-			panicked, msg := lib.Catch(func() { sc.Run(&wl{seed: seed, g: g, iters: iters}) })
+			panicked, msg := lib.Catch(func() { soft, _ := strconv.Atoi(os.Getenv("C11_SOFT_MS"))
+			if soft <= 0 {
+				soft = 5000
+			}
+			sc.Run(&wl{seed: seed, g: g, iters: iters, deadline: time.Now().Add(time.Duration(soft) * time.Millisecond)}) })
 			if panicked {
 				fmt.Println("WORKLOAD-PANIC", msg)
 			}
